@@ -4,6 +4,8 @@
 f8_0:
   ret
   call f3_0
+  mov wvsv1@GOTPCREL(%rip),%rax
+  mov wvsv1(%rip),%rax
   ret
 .section wvset0,"aw",@progbits
   .quad f4_0
